@@ -163,7 +163,7 @@ pub fn run_c06(ctx: &mut Ctx) {
     ctx.extra.insert("universe".into(), json!({"languages": u.langs.len(), "scripts_incl_absent": u.scripts.len(), "regions_incl_absent": u.regions.len(), "triples": u.size()}));
     for_triples(ctx, &u, &lk, &mut |ctx, l, s, r| {
         ctx.evals += 1;
-        let (fails, kind) = c06_check_triple(&lk, l, s, r);
+        let (fails, kind) = guard(|| c06_check_triple(&lk, l, s, r)).unwrap_or_else(|p| (vec![fail("panic", p)], "wrong"));
         ctx.count(match kind {
             "entry" => "answer:from-entry",
             "unchanged" => "answer:unchanged",
@@ -226,7 +226,7 @@ pub fn c07_check_triple(l: &str, s: Option<&str>, r: Option<&str>, deep: bool) -
     // method level: bool, fields, variants and extensions untouched
     let nlists = if deep { VARIANT_LISTS.len() } else { 1 };
     for vi in 0..nlists {
-        let vars: Vec<Variant> = VARIANT_LISTS[(vi + 1) % VARIANT_LISTS.len()].iter().map(|v| v.parse().unwrap()).collect();
+        let vars: Vec<Variant> = VARIANT_LISTS[(vi + 1) % VARIANT_LISTS.len()].iter().filter_map(|v| v.parse().ok()).collect();
         let before = LanguageIdentifier::from_parts(t.0, t.1, t.2, &vars);
         let mut li = before.clone();
         let b = li.maximize();
@@ -248,7 +248,7 @@ pub fn c07_check_triple(l: &str, s: Option<&str>, r: Option<&str>, deep: bool) -
         }
         if deep {
             for e in EXT_SETS {
-                let ext: unic_locale_impl::ExtensionsMap = e.parse().unwrap();
+                let Ok(ext) = e.parse::<unic_locale_impl::ExtensionsMap>() else { continue };
                 let mut loc = Locale { id: before.clone(), extensions: ext.clone() };
                 let es = loc.extensions.to_string();
                 let b2 = loc.id.maximize();
@@ -281,8 +281,17 @@ pub fn run_c07(ctx: &mut Ctx) {
         ctx.evals += 1;
         k += 1;
         let deep = k % 97 == 0;
-        let t = to_lib(l, s, r).unwrap();
-        let changed = likelysubtags::maximize(t.0, t.1, t.2).is_some();
+        let Some(t) = to_lib(l, s, r) else {
+            ctx.count("setup: CLDR subtag rejected by the library (triple skipped)");
+            return;
+        };
+        let changed = match guard(|| likelysubtags::maximize(t.0, t.1, t.2).is_some()) {
+            Ok(c) => c,
+            Err(p) => {
+                report(ctx, vec![fail("panic", format!("maximize panicked: {}", p))], l, s, r);
+                return;
+            }
+        };
         ctx.count(if changed { "maximize:changed" } else { "maximize:unchanged" });
         if deep {
             ctx.count("with-variants-and-extensions");
@@ -295,7 +304,7 @@ pub fn run_c07(ctx: &mut Ctx) {
                 ctx.sample("changed", || json!({"input": triple_json(l, s, r), "maximized": li.to_string()}));
             }
         }
-        let fails = c07_check_triple(l, s, r, deep);
+        let fails = guard(|| c07_check_triple(l, s, r, deep)).unwrap_or_else(|p| vec![fail("panic", p)]);
         if !fails.is_empty() {
             report(ctx, fails, l, s, r);
         }
@@ -371,7 +380,7 @@ pub fn c08_check_triple(lk: Option<&Likely>, l: &str, s: Option<&str>, r: Option
     // method level
     let nl = if deep { VARIANT_LISTS.len() } else { 1 };
     for vi in 0..nl {
-        let vars: Vec<Variant> = VARIANT_LISTS[(vi + 2) % VARIANT_LISTS.len()].iter().map(|v| v.parse().unwrap()).collect();
+        let vars: Vec<Variant> = VARIANT_LISTS[(vi + 2) % VARIANT_LISTS.len()].iter().filter_map(|v| v.parse().ok()).collect();
         let before = LanguageIdentifier::from_parts(x.0, x.1, x.2, &vars);
         let mut li = before.clone();
         let b = li.minimize();
@@ -396,7 +405,7 @@ pub fn c08_check_triple(lk: Option<&Likely>, l: &str, s: Option<&str>, r: Option
         }
         if deep {
             for e in EXT_SETS {
-                let ext: unic_locale_impl::ExtensionsMap = e.parse().unwrap();
+                let Ok(ext) = e.parse::<unic_locale_impl::ExtensionsMap>() else { continue };
                 let mut loc = Locale { id: before.clone(), extensions: ext.clone() };
                 let b2 = loc.id.minimize();
                 if loc.extensions != ext || loc.id != li || b2 != b {
@@ -429,8 +438,17 @@ pub fn run_c08(ctx: &mut Ctx) {
         ctx.evals += 1;
         k += 1;
         let deep = k % 97 == 0;
-        let t = to_lib(l, s, r).unwrap();
-        let z = likelysubtags::minimize(t.0, t.1, t.2);
+        let Some(t) = to_lib(l, s, r) else {
+            ctx.count("setup: CLDR subtag rejected by the library (triple skipped)");
+            return;
+        };
+        let z = match guard(|| likelysubtags::minimize(t.0, t.1, t.2)) {
+            Ok(z) => z,
+            Err(p) => {
+                report(ctx, vec![fail("panic", format!("minimize panicked: {}", p))], l, s, r);
+                return;
+            }
+        };
         let changed = z.map_or(false, |z| z != t);
         ctx.count(if changed { "minimize:changed" } else if z.is_some() { "minimize:restated" } else { "minimize:none" });
         if deep {
@@ -442,7 +460,7 @@ pub fn run_c08(ctx: &mut Ctx) {
                 ctx.sample("changed", || json!({"input": triple_json(l, s, r), "minimized": z.map(|t| show(&from_lib(&t)))}));
             }
         }
-        let fails = c08_check_triple(Some(&lk), l, s, r, deep);
+        let fails = guard(|| c08_check_triple(Some(&lk), l, s, r, deep)).unwrap_or_else(|p| vec![fail("panic", p)]);
         if !fails.is_empty() {
             report(ctx, fails, l, s, r);
         }
